@@ -109,7 +109,7 @@ func operation.Accept
   modifies dyn(visitor, *insertVisitor).mutations when istype(visitor, *insertVisitor)
   modifies cachePuts when istype(visitor, *insertVisitor)
   may_panic
-  ensures istype(visitor, *computeHashVisitor) ==> bytes(result) == evalC(self, dyn(visitor, *computeHashVisitor))
+  ensures istype(visitor, *computeHashVisitor) ==> bytes(result) == evalC(self, dyn(visitor, *computeHashVisitor).cache)
   ensures istype(visitor, *insertVisitor) ==> bytes(result) == evalI(self, dyn(visitor, *insertVisitor).cache)
 
 func operation.Position
@@ -131,7 +131,7 @@ func innerHashOp.Accept
   modifies dyn(visitor, *insertVisitor).mutations when istype(visitor, *insertVisitor)
   modifies cachePuts when istype(visitor, *insertVisitor)
   may_panic
-  ensures C02/evalC-inner: istype(visitor, *computeHashVisitor) ==> bytes(result) == H(cat(cat(evalC(o.Left, dyn(visitor, *computeHashVisitor)), evalC(o.Right, dyn(visitor, *computeHashVisitor))), posb(o.pos.Index, o.pos.Height)))
+  ensures C02/evalC-inner: istype(visitor, *computeHashVisitor) ==> bytes(result) == H(cat(cat(evalC(o.Left, dyn(visitor, *computeHashVisitor).cache), evalC(o.Right, dyn(visitor, *computeHashVisitor).cache)), posb(o.pos.Index, o.pos.Height)))
   ensures C04/evalI-inner: istype(visitor, *insertVisitor) ==> bytes(result) == H(cat(cat(evalI(o.Left, dyn(visitor, *insertVisitor).cache), evalI(o.Right, dyn(visitor, *insertVisitor).cache)), posb(o.pos.Index, o.pos.Height)))
 func partialInnerHashOp.Accept
   props C02 C04 C12
@@ -140,7 +140,7 @@ func partialInnerHashOp.Accept
   modifies dyn(visitor, *insertVisitor).mutations when istype(visitor, *insertVisitor)
   modifies cachePuts when istype(visitor, *insertVisitor)
   may_panic
-  ensures C02/evalC-partial: istype(visitor, *computeHashVisitor) ==> bytes(result) == H(cat(evalC(o.Left, dyn(visitor, *computeHashVisitor)), posb(o.pos.Index, o.pos.Height)))
+  ensures C02/evalC-partial: istype(visitor, *computeHashVisitor) ==> bytes(result) == H(cat(evalC(o.Left, dyn(visitor, *computeHashVisitor).cache), posb(o.pos.Index, o.pos.Height)))
   ensures C04/evalI-partial: istype(visitor, *insertVisitor) ==> bytes(result) == H(cat(evalI(o.Left, dyn(visitor, *insertVisitor).cache), posb(o.pos.Index, o.pos.Height)))
 func getCacheOp.Accept
   props C02 C04 C12
@@ -196,14 +196,14 @@ func opVisitor.VisitInnerHashOp
   modifies dyn(self, *insertVisitor).mutations when istype(self, *insertVisitor)
   modifies cachePuts when istype(self, *insertVisitor)
   may_panic
-  ensures istype(self, *computeHashVisitor) ==> bytes(result) == H(cat(cat(evalC(op.Left, dyn(self, *computeHashVisitor)), evalC(op.Right, dyn(self, *computeHashVisitor))), posb(op.pos.Index, op.pos.Height)))
+  ensures istype(self, *computeHashVisitor) ==> bytes(result) == H(cat(cat(evalC(op.Left, dyn(self, *computeHashVisitor).cache), evalC(op.Right, dyn(self, *computeHashVisitor).cache)), posb(op.pos.Index, op.pos.Height)))
   ensures istype(self, *insertVisitor) ==> bytes(result) == H(cat(cat(evalI(op.Left, dyn(self, *insertVisitor).cache), evalI(op.Right, dyn(self, *insertVisitor).cache)), posb(op.pos.Index, op.pos.Height)))
 func opVisitor.VisitPartialInnerHashOp
   modifies everything when !istype(self, *computeHashVisitor) && !istype(self, *insertVisitor)
   modifies dyn(self, *insertVisitor).mutations when istype(self, *insertVisitor)
   modifies cachePuts when istype(self, *insertVisitor)
   may_panic
-  ensures istype(self, *computeHashVisitor) ==> bytes(result) == H(cat(evalC(op.Left, dyn(self, *computeHashVisitor)), posb(op.pos.Index, op.pos.Height)))
+  ensures istype(self, *computeHashVisitor) ==> bytes(result) == H(cat(evalC(op.Left, dyn(self, *computeHashVisitor).cache), posb(op.pos.Index, op.pos.Height)))
   ensures istype(self, *insertVisitor) ==> bytes(result) == H(cat(evalI(op.Left, dyn(self, *insertVisitor).cache), posb(op.pos.Index, op.pos.Height)))
 func opVisitor.VisitGetCacheOp
   modifies everything when !istype(self, *computeHashVisitor) && !istype(self, *insertVisitor)
@@ -240,11 +240,11 @@ func computeHashVisitor.VisitLeafHashOp
 func computeHashVisitor.VisitInnerHashOp
   props C02 C12
   may_panic
-  ensures C02/inner-hash: bytes(result) == H(cat(cat(evalC(op.Left, v), evalC(op.Right, v)), posb(op.pos.Index, op.pos.Height)))
+  ensures C02/inner-hash: bytes(result) == H(cat(cat(evalC(op.Left, v.cache), evalC(op.Right, v.cache)), posb(op.pos.Index, op.pos.Height)))
 func computeHashVisitor.VisitPartialInnerHashOp
   props C02 C12
   may_panic
-  ensures C02/partial-hash: bytes(result) == H(cat(evalC(op.Left, v), posb(op.pos.Index, op.pos.Height)))
+  ensures C02/partial-hash: bytes(result) == H(cat(evalC(op.Left, v.cache), posb(op.pos.Index, op.pos.Height)))
 func computeHashVisitor.VisitGetCacheOp
   props C02 C12
   may_panic
@@ -328,15 +328,16 @@ define inRange(x, i, h) = i <= x && ((h >= 64 && i == 0) || (h < 64 && x - i < (
 func pruneToVerify
   props C02 C12
   ensures !isnil(result)
-  ensures C02/binding-at-the-root: index <= version ==> forall v *computeHashVisitor :: (evalC(result, v) == Hist(0, uint16(len64(version)), version) ==> bytes(eventDigest) == ev(index))
+  // (thePath() is an arbitrary audit path: the clause holds whatever the proof holds)
+  ensures C02/binding-at-the-root: index <= version && evalC(result, thePath()) == Hist(0, uint16(len64(version)), version) ==> bytes(eventDigest) == ev(index)
 func pruneToVerify.traverse
   props C02 C12
   requires pos != nil
   decreases pos.Height
   ensures !isnil(result)
-  ensures C02/recomputation-is-a-hash: forall v *computeHashVisitor :: blen(evalC(result, v)) == hlen()
+  ensures C02/recomputation-is-a-hash: blen(evalC(result, thePath())) == hlen()
   // (index <= version matters: beyond the version the leaf falls into a subtree that a partial node drops)
-  ensures C02/binding: index <= version && inRange(index, pos.Index, pos.Height) ==> forall v *computeHashVisitor :: (evalC(result, v) == Hist(pos.Index, pos.Height, version) ==> bytes(eventDigest) == ev(index))
+  ensures C02/binding: index <= version && inRange(index, pos.Index, pos.Height) && evalC(result, thePath()) == Hist(pos.Index, pos.Height, version) ==> bytes(eventDigest) == ev(index)
 
 func pruneToVerifyIncrementalStart
   props C03 C12
@@ -408,7 +409,7 @@ func NewIncrementalProof
 // p.Version binds the digest to the event that has version p.Index in that log
 func MembershipProof.Verify
   props C02 C12
-  ensures C02/history-binding: result && p.Index <= p.Version && bytes(expectedRootHash) == Hist(0, uint16(len64(p.Version)), p.Version) ==> bytes(eventDigest) == ev(p.Index)
+  ensures C02/history-binding: box(p.AuditPath) == thePath() && result && p.Index <= p.Version && bytes(expectedRootHash) == Hist(0, uint16(len64(p.Version)), p.Version) ==> bytes(eventDigest) == ev(p.Index)
 
 func IncrementalProof.Verify
   props C03 C12
